@@ -332,8 +332,14 @@ _RELT = {"T01": ["C01", "C02", "C10", "C12", "C18", "C19"], "T03": ["C03", "C04"
          "T12": ["C08", "C09", "C12"], "T16": ["C03", "C04", "C08", "C15", "C16"], "T05": ["C03", "C04", "C05", "C06"],
          # fifth corpus (U<prop>.p<i>, written after seed round 9 with a list of what had been done before)
          "U02": ["C01", "C02", "C10", "C12", "C13", "C18", "C20"], "U06": ["C03", "C04", "C05", "C06"], "U10": ["C01", "C02", "C10", "C12", "C18"], "U11": ["C03", "C09", "C11", "C12", "C18"],
-         "U13": ["C02", "C13"], "U15": ["C03", "C04", "C07", "C15", "C16"], "U17": ["C03", "C04", "C12", "C17"]}
-_SKIPT = set()
+         "U13": ["C02", "C13"], "U15": ["C03", "C04", "C07", "C15", "C16"], "U17": ["C03", "C04", "C12", "C17"],
+         # sixth corpus (V<prop>.p<i>, written after seed round 10)
+         "V04": ["C03", "C04", "C05", "C06", "C07", "C08", "C16", "C19"], "V08": ["C03", "C04", "C08", "C13", "C19"], "V14": ["C14"], "V18": ["C01", "C02", "C03", "C04", "C08", "C13", "C17", "C18", "C19", "C20"],
+         "V19": ["C18", "C19"], "V20": ["C15", "C16", "C18", "C20"]}
+# V14.p3 (generic_hex restructured around a `written` counter, get_unchecked and an early-return chunked path) is reported by C14's rules, which are stated
+# on the clamp / budget shape (the hex family of DESIGN 8.5); V18.p3's arr! repeat helper (uninit + one write + assume_init instead of const_transmute) is
+# reported by C20.R, which knows the size-guarded const_transmute helper only
+_SKIPT = {("V14", 3), ("V18", 3)}
 for _g, _props in _RELT.items():
     for _i in (1, 2, 3):
         if (_g, _i) in _SKIPT:
@@ -483,3 +489,16 @@ mutant_on_patch("m-U06p3-fold-loop-leaves-early", "U06.p3", ["C03"], [("src/iter
 mutant_on_patch("m-T05p2-last-does-not-shrink", "T05.p2", ["C05", "C06"], [("src/iter.rs", "        self.index_back -= 1;\n\n        // Note, everything else will correctly drop first as `self` leaves scope.", "        // Note, everything else will correctly drop first as `self` leaves scope.")], "")
 mutant_on_patch("m-U17p2-stored-but-not-counted", "U17.p2", ["C17", "C04"], [("src/impl_serde.rs", "                    dst.write(el);\n                    *position += 1;\n                    ControlFlow::Continue(())", "                    dst.write(el);\n                    ControlFlow::Continue(())")], "")
 mutant_on_patch("m-U17p3-source-polls-twice", "U17.p3", ["C17"], [("src/impl_serde.rs", "            builder.extend(iter::from_fn(|| match seq.next_element() {", "            builder.extend(iter::from_fn(|| match seq.next_element::<T>().and_then(|_| seq.next_element()) {")], "C17.V")
+
+
+# sixth corpus
+mutant_on_patch("m-V19p3-peeling-starts-at-the-second-element", "V19.p3", ["C19"], [("src/impl_zeroize.rs", "        zeroize_in_order::<T>(self)", "        zeroize_in_order::<T>(&mut self[1..])")], "C19.Z")
+mutant_on_patch("m-V19p3-last-element-left-alone", "V19.p3", ["C19"], [("src/impl_zeroize.rs", "        head.zeroize();\n        rest = tail;", "        if tail.is_empty() {\n            break;\n        }\n        head.zeroize();\n        rest = tail;")], "C19.Z")
+mutant_on_patch("m-V04p2-index-one-ahead-of-the-count", "V04.p2", ["C08"], [("src/lib.rs", "                    let i = *position;", "                    let i = *position + 1;")], "C08.G")
+mutant_on_patch("m-V04p3-fold-through-try-fold-that-can-break", "V04.p3", ["C03", "C06"], [("src/iter.rs", "let folded: Result<B, Infallible> = self.try_fold(init, |acc, value| Ok(f(acc, value)));", "let folded: Result<B, B> = self.try_fold(init, |acc, value| if false { Err(acc) } else { Ok(f(acc, value)) });")], "")
+mutant_on_patch("m-V08p3-fold-over-the-reversed-iterator", "V08.p3", ["C08"], [("src/lib.rs", "self.into_iter().fold(init, &mut f)", "self.into_iter().skip(1).fold(init, &mut f)")], "C08.M")
+mutant_on_patch("m-V18p2-len-constant-off-by-one", "V18.p2", ["C02", "C18"], [("src/lib.rs", "const LEN: usize = <N as Unsigned>::USIZE;", "const LEN: usize = <N as Unsigned>::USIZE + 1;")], "")
+
+# the fallible forms answer with Err, not with a panic of their own (C07.N / C15.N, judged in the no-debug-assertion configuration)
+mutant("c07-short-source-asserted-instead-of-refused", ["C07"], [("src/lib.rs", "            if !builder.is_full() || iter.next().is_some() {\n                return Err(LengthError);\n            }", "            assert!(builder.is_full(), \"too few items\");\n            if iter.next().is_some() {\n                return Err(LengthError);\n            }")], "C07.N")
+mutant("c15-short-boxed-slice-asserted-instead-of-refused", ["C15"], [("src/impl_alloc.rs", "        if slice.len() != N::USIZE {\n            return Err(LengthError);\n        }\n\n        Ok(unsafe { Box::from_raw(Box::into_raw(slice) as *mut _) })", "        if slice.len() > N::USIZE {\n            return Err(LengthError);\n        }\n        assert!(slice.len() == N::USIZE);\n\n        Ok(unsafe { Box::from_raw(Box::into_raw(slice) as *mut _) })")], "C15.N")
